@@ -423,6 +423,17 @@ func (c *Component) handleAAAResponse(event events.Event) {
 	sess := val.(*SessionState)
 
 	sess.mu.Lock()
+	// Only the answer to the request this session has outstanding is a
+	// decision for it. A duplicate or unsolicited answer must not replace
+	// the allocator context of an approved session (the next DISCOVER would
+	// allocate a second address and strand the first), nor turn an approved,
+	// bound session into a rejected one without releasing anything.
+	if !sess.AAAInFlight {
+		sess.mu.Unlock()
+		c.logger.Warn("AAA response for a session with no request in flight ignored",
+			"session_id", sessID, "allowed", allowed)
+		return
+	}
 	sess.AAAApproved = allowed
 	sess.AAAInFlight = false
 	if !allowed {
